@@ -178,6 +178,16 @@ func runC14(c *engine.Ctx) {
 				n.Set("matrix", gen.Map())
 				changed = true
 			}
+			// inside a mapping-form matrix: no adjustments == an explicit empty list
+			if m := n.Get("matrix"); m != nil && m.Kind == gen.KMap && m.Has("setup") && p.Draw(2, "c14:adj-empty") == 1 {
+				if !m.Has("adjustments") {
+					m.Set("adjustments", &gen.Node{Kind: gen.KSeq, Seq: []*gen.Node{}})
+					changed = true
+				} else if a := m.Get("adjustments"); a.Kind == gen.KSeq && len(a.Seq) == 0 {
+					m.Del("adjustments")
+					changed = true
+				}
+			}
 		})
 		if changed {
 			v := vdoc.ToJSON(nil)
@@ -262,6 +272,21 @@ func runC14(c *engine.Ctx) {
 					}
 					judged["signer-vs-verifier"] = true
 					c.Probe("collide_pairs.signer-vs-verifier")
+					// the payload of a step must not depend on which other steps were signed before it:
+					// signing it alone, with a fresh copy of the same pipeline env, gives the same bytes
+					{
+						fresh := map[string]string{}
+						for k, val := range pl0.Env.ToMap() {
+							fresh[k] = val
+						}
+						if alone, aerr := signOnePayload(c, v.step, kp, j.repoURL, fresh); aerr == nil {
+							if !bytes.Equal(alone, P0[i]) {
+								c.Fail("C14.collide", "in-sequence-vs-alone", "command step #%d has one payload when signed inside SignSteps (after %d other steps) and another when signed alone with the same pipeline env\nin sequence: %s\nalone:       %s\ndocument (%s):\n%s", i+1, i, truncate(string(P0[i]), 700), truncate(string(alone), 700), format, truncate(string(src), 900))
+							}
+							judged["in-sequence-vs-alone"] = true
+							c.Probe("collide_pairs.in-sequence-vs-alone")
+						}
+					}
 
 					// ---- differ half on this job
 					if c.Sched.Draw(2, "c14:differ?") == 0 {
